@@ -68,152 +68,152 @@ func ZZ_C42_DecodeScalarValue_LLEN() {
 
 // thorough tier: two free value bytes, one harness per scalar simple type (so they run in parallel)
 
-//verif:harness property=C42 mode=bv unwind=80 tier=thorough steps=40000000
+//verif:harness property=C42 mode=bv bigw=288 unwind=80 tier=thorough steps=40000000
 func ZZ_C42_DecodeScalarValue2_Bool() {
 	zzDecodeNoCrash(zzCat(zzSimpleTypeHeader(SimpleTypeBool), zzNondetBytes(2)))
 }
 
-//verif:harness property=C42 mode=bv unwind=80 tier=thorough steps=40000000
+//verif:harness property=C42 mode=bv bigw=288 unwind=80 tier=thorough steps=40000000
 func ZZ_C42_DecodeScalarValue2_String() {
 	zzDecodeNoCrash(zzCat(zzSimpleTypeHeader(SimpleTypeString), zzNondetBytes(2)))
 }
 
-//verif:harness property=C42 mode=bv unwind=80 tier=thorough steps=40000000
+//verif:harness property=C42 mode=bv bigw=288 unwind=80 tier=thorough steps=40000000
 func ZZ_C42_DecodeScalarValue2_Character() {
 	zzDecodeNoCrash(zzCat(zzSimpleTypeHeader(SimpleTypeCharacter), zzNondetBytes(2)))
 }
 
-//verif:harness property=C42 mode=bv unwind=80 tier=thorough steps=40000000
+//verif:harness property=C42 mode=bv bigw=288 unwind=80 tier=thorough steps=40000000
 func ZZ_C42_DecodeScalarValue2_Address() {
 	zzDecodeNoCrash(zzCat(zzSimpleTypeHeader(SimpleTypeAddress), zzNondetBytes(2)))
 }
 
-//verif:harness property=C42 mode=bv unwind=80 tier=thorough steps=40000000
+//verif:harness property=C42 mode=bv bigw=288 unwind=80 tier=thorough steps=40000000
 func ZZ_C42_DecodeScalarValue2_Int() {
 	zzDecodeNoCrash(zzCat(zzSimpleTypeHeader(SimpleTypeInt), zzNondetBytes(2)))
 }
 
-//verif:harness property=C42 mode=bv unwind=80 tier=thorough steps=40000000
+//verif:harness property=C42 mode=bv bigw=288 unwind=80 tier=thorough steps=40000000
 func ZZ_C42_DecodeScalarValue2_Int8() {
 	zzDecodeNoCrash(zzCat(zzSimpleTypeHeader(SimpleTypeInt8), zzNondetBytes(2)))
 }
 
-//verif:harness property=C42 mode=bv unwind=80 tier=thorough steps=40000000
+//verif:harness property=C42 mode=bv bigw=288 unwind=80 tier=thorough steps=40000000
 func ZZ_C42_DecodeScalarValue2_Int16() {
 	zzDecodeNoCrash(zzCat(zzSimpleTypeHeader(SimpleTypeInt16), zzNondetBytes(2)))
 }
 
-//verif:harness property=C42 mode=bv unwind=80 tier=thorough steps=40000000
+//verif:harness property=C42 mode=bv bigw=288 unwind=80 tier=thorough steps=40000000
 func ZZ_C42_DecodeScalarValue2_Int32() {
 	zzDecodeNoCrash(zzCat(zzSimpleTypeHeader(SimpleTypeInt32), zzNondetBytes(2)))
 }
 
-//verif:harness property=C42 mode=bv unwind=80 tier=thorough steps=40000000
+//verif:harness property=C42 mode=bv bigw=288 unwind=80 tier=thorough steps=40000000
 func ZZ_C42_DecodeScalarValue2_Int64() {
 	zzDecodeNoCrash(zzCat(zzSimpleTypeHeader(SimpleTypeInt64), zzNondetBytes(2)))
 }
 
-//verif:harness property=C42 mode=bv unwind=80 tier=thorough steps=40000000
+//verif:harness property=C42 mode=bv bigw=288 unwind=80 tier=thorough steps=40000000
 func ZZ_C42_DecodeScalarValue2_Int128() {
 	zzDecodeNoCrash(zzCat(zzSimpleTypeHeader(SimpleTypeInt128), zzNondetBytes(2)))
 }
 
-//verif:harness property=C42 mode=bv unwind=80 tier=thorough steps=40000000
+//verif:harness property=C42 mode=bv bigw=288 unwind=80 tier=thorough steps=40000000
 func ZZ_C42_DecodeScalarValue2_Int256() {
 	zzDecodeNoCrash(zzCat(zzSimpleTypeHeader(SimpleTypeInt256), zzNondetBytes(2)))
 }
 
-//verif:harness property=C42 mode=bv unwind=80 tier=thorough steps=40000000
+//verif:harness property=C42 mode=bv bigw=288 unwind=80 tier=thorough steps=40000000
 func ZZ_C42_DecodeScalarValue2_UInt() {
 	zzDecodeNoCrash(zzCat(zzSimpleTypeHeader(SimpleTypeUInt), zzNondetBytes(2)))
 }
 
-//verif:harness property=C42 mode=bv unwind=80 tier=thorough steps=40000000
+//verif:harness property=C42 mode=bv bigw=288 unwind=80 tier=thorough steps=40000000
 func ZZ_C42_DecodeScalarValue2_UInt8() {
 	zzDecodeNoCrash(zzCat(zzSimpleTypeHeader(SimpleTypeUInt8), zzNondetBytes(2)))
 }
 
-//verif:harness property=C42 mode=bv unwind=80 tier=thorough steps=40000000
+//verif:harness property=C42 mode=bv bigw=288 unwind=80 tier=thorough steps=40000000
 func ZZ_C42_DecodeScalarValue2_UInt16() {
 	zzDecodeNoCrash(zzCat(zzSimpleTypeHeader(SimpleTypeUInt16), zzNondetBytes(2)))
 }
 
-//verif:harness property=C42 mode=bv unwind=80 tier=thorough steps=40000000
+//verif:harness property=C42 mode=bv bigw=288 unwind=80 tier=thorough steps=40000000
 func ZZ_C42_DecodeScalarValue2_UInt32() {
 	zzDecodeNoCrash(zzCat(zzSimpleTypeHeader(SimpleTypeUInt32), zzNondetBytes(2)))
 }
 
-//verif:harness property=C42 mode=bv unwind=80 tier=thorough steps=40000000
+//verif:harness property=C42 mode=bv bigw=288 unwind=80 tier=thorough steps=40000000
 func ZZ_C42_DecodeScalarValue2_UInt64() {
 	zzDecodeNoCrash(zzCat(zzSimpleTypeHeader(SimpleTypeUInt64), zzNondetBytes(2)))
 }
 
-//verif:harness property=C42 mode=bv unwind=80 tier=thorough steps=40000000
+//verif:harness property=C42 mode=bv bigw=288 unwind=80 tier=thorough steps=40000000
 func ZZ_C42_DecodeScalarValue2_UInt128() {
 	zzDecodeNoCrash(zzCat(zzSimpleTypeHeader(SimpleTypeUInt128), zzNondetBytes(2)))
 }
 
-//verif:harness property=C42 mode=bv unwind=80 tier=thorough steps=40000000
+//verif:harness property=C42 mode=bv bigw=288 unwind=80 tier=thorough steps=40000000
 func ZZ_C42_DecodeScalarValue2_UInt256() {
 	zzDecodeNoCrash(zzCat(zzSimpleTypeHeader(SimpleTypeUInt256), zzNondetBytes(2)))
 }
 
-//verif:harness property=C42 mode=bv unwind=80 tier=thorough steps=40000000
+//verif:harness property=C42 mode=bv bigw=288 unwind=80 tier=thorough steps=40000000
 func ZZ_C42_DecodeScalarValue2_Word8() {
 	zzDecodeNoCrash(zzCat(zzSimpleTypeHeader(SimpleTypeWord8), zzNondetBytes(2)))
 }
 
-//verif:harness property=C42 mode=bv unwind=80 tier=thorough steps=40000000
+//verif:harness property=C42 mode=bv bigw=288 unwind=80 tier=thorough steps=40000000
 func ZZ_C42_DecodeScalarValue2_Word16() {
 	zzDecodeNoCrash(zzCat(zzSimpleTypeHeader(SimpleTypeWord16), zzNondetBytes(2)))
 }
 
-//verif:harness property=C42 mode=bv unwind=80 tier=thorough steps=40000000
+//verif:harness property=C42 mode=bv bigw=288 unwind=80 tier=thorough steps=40000000
 func ZZ_C42_DecodeScalarValue2_Word32() {
 	zzDecodeNoCrash(zzCat(zzSimpleTypeHeader(SimpleTypeWord32), zzNondetBytes(2)))
 }
 
-//verif:harness property=C42 mode=bv unwind=80 tier=thorough steps=40000000
+//verif:harness property=C42 mode=bv bigw=288 unwind=80 tier=thorough steps=40000000
 func ZZ_C42_DecodeScalarValue2_Word64() {
 	zzDecodeNoCrash(zzCat(zzSimpleTypeHeader(SimpleTypeWord64), zzNondetBytes(2)))
 }
 
-//verif:harness property=C42 mode=bv unwind=80 tier=thorough steps=40000000
+//verif:harness property=C42 mode=bv bigw=288 unwind=80 tier=thorough steps=40000000
 func ZZ_C42_DecodeScalarValue2_Word128() {
 	zzDecodeNoCrash(zzCat(zzSimpleTypeHeader(SimpleTypeWord128), zzNondetBytes(2)))
 }
 
-//verif:harness property=C42 mode=bv unwind=80 tier=thorough steps=40000000
+//verif:harness property=C42 mode=bv bigw=288 unwind=80 tier=thorough steps=40000000
 func ZZ_C42_DecodeScalarValue2_Word256() {
 	zzDecodeNoCrash(zzCat(zzSimpleTypeHeader(SimpleTypeWord256), zzNondetBytes(2)))
 }
 
-//verif:harness property=C42 mode=bv unwind=80 tier=thorough steps=40000000
+//verif:harness property=C42 mode=bv bigw=288 unwind=80 tier=thorough steps=40000000
 func ZZ_C42_DecodeScalarValue2_Fix64() {
 	zzDecodeNoCrash(zzCat(zzSimpleTypeHeader(SimpleTypeFix64), zzNondetBytes(2)))
 }
 
-//verif:harness property=C42 mode=bv unwind=80 tier=thorough steps=40000000
+//verif:harness property=C42 mode=bv bigw=288 unwind=80 tier=thorough steps=40000000
 func ZZ_C42_DecodeScalarValue2_UFix64() {
 	zzDecodeNoCrash(zzCat(zzSimpleTypeHeader(SimpleTypeUFix64), zzNondetBytes(2)))
 }
 
-//verif:harness property=C42 mode=bv unwind=80 tier=thorough steps=40000000
+//verif:harness property=C42 mode=bv bigw=288 unwind=80 tier=thorough steps=40000000
 func ZZ_C42_DecodeScalarValue2_Fix128() {
 	zzDecodeNoCrash(zzCat(zzSimpleTypeHeader(SimpleTypeFix128), zzNondetBytes(2)))
 }
 
-//verif:harness property=C42 mode=bv unwind=80 tier=thorough steps=40000000
+//verif:harness property=C42 mode=bv bigw=288 unwind=80 tier=thorough steps=40000000
 func ZZ_C42_DecodeScalarValue2_UFix128() {
 	zzDecodeNoCrash(zzCat(zzSimpleTypeHeader(SimpleTypeUFix128), zzNondetBytes(2)))
 }
 
-//verif:harness property=C42 mode=bv unwind=80 tier=thorough steps=40000000
+//verif:harness property=C42 mode=bv bigw=288 unwind=80 tier=thorough steps=40000000
 func ZZ_C42_DecodeScalarValue2_Path() {
 	zzDecodeNoCrash(zzCat(zzSimpleTypeHeader(SimpleTypePath), zzNondetBytes(2)))
 }
 
-//verif:harness property=C42 mode=bv unwind=80 tier=thorough steps=40000000
+//verif:harness property=C42 mode=bv bigw=288 unwind=80 tier=thorough steps=40000000
 func ZZ_C42_DecodeScalarValue2_Void() {
 	zzDecodeNoCrash(zzCat(zzSimpleTypeHeader(SimpleTypeVoid), zzNondetBytes(2)))
 }
